@@ -191,8 +191,94 @@ let show_inbound = function
 let stateless (f : n list -> ((n list) * 'it option) res) = fun () src ->
   match f src with Ok (r, it) -> Ok (((), r), it) | Err e -> Err e | Panic -> Panic
 
+(* ---------- VMess ---------- *)
+let vsess_of_hex h = let b = unhex h in
+  let rec take n l = if n = 0 then [] else match l with [] -> [] | x :: t -> x :: take (n-1) t in
+  let rec drop n l = if n = 0 then l else match l with [] -> [] | _ :: t -> drop (n-1) t in
+  { vs_iv = take 16 b; vs_key = take 16 (drop 16 b); vs_v = (match drop 32 b with v :: _ -> v | [] -> N0) }
+
+(* uuid string -> cmd key: md5(uuid bytes ++ "c48619fe-8f02-49e0-b9e9-edf763e17e21") *)
+let cmdkey_of_uuid (u : string) : n list =
+  let hexs = String.concat "" (String.split_on_char '-' u) in
+  let salt = List.map (fun c -> n_of_int (Char.code c)) (List.init 36 (String.get "c48619fe-8f02-49e0-b9e9-edf763e17e21")) in
+  prims.p_md5 (bytes_of_hex hexs @ salt)
+
+let run_vmbody opt sec role sess ops =
+  let opt = n_of_int (int_of_string opt) and sec = n_of_int (int_of_string sec) in
+  let s = vsess_of_hex sess in
+  let rk = resp_key prims s and ri = resp_iv prims s in
+  let (ek, ei, dk, di) = if role = "client" then (s.vs_key, s.vs_iv, rk, ri) else (rk, ri, s.vs_key, s.vs_iv) in
+  let enc = ref (body_new prims opt sec ek ei s.vs_key s.vs_iv) and dec = ref (body_new prims opt sec dk di s.vs_key s.vs_iv) in
+  let buf = ref [] and dead = ref false in
+  let outs = List.filter_map (fun op ->
+    if op = "" then None else if !dead then Some "SKIP" else
+    let c = op.[0] and data = unhex (String.sub op 1 (String.length op - 1)) in
+    match c with
+    | 'E' | 'e' -> let (out, b') = encode_payload_v prims (nat_of_int (List.length data + 1)) !enc data [] in
+      enc := b'; Some (if c = 'E' then "OK " ^ hx out else "OK")
+    | 'P' | 'p' -> (match encode_packet_v prims !enc data [] with
+        | Ok (out, b') -> enc := b'; Some (if c = 'P' then "OK " ^ hx out else "OK")
+        | Err e -> dead := true; Some ("ERR " ^ string_of_err e) | Panic -> dead := true; Some "PANIC")
+    | _ ->
+      let d = if c = 'D' then decode_payload_v prims else decode_packet_v prims in
+      let fdec b src = match d b src with Ok ((b', r), it) -> Ok ((b', r), it) | Err e -> Err e | Panic -> Panic in
+      (* the harness stops draining once the buffer is empty after an item; the Framed model calls once more, which is a no-op *)
+      let (((b', r), items), st) = feed fdec !dec !buf data in
+      let its = String.concat "," (List.map hx items) in
+      (match st with
+       | Waiting -> dec := b'; buf := r; Some (Printf.sprintf "WAIT [%s] rest=%d" its (List.length r))
+       | _ -> dead := true; Some (Printf.sprintf "%s [%s]" (fstatus_str st) its))) (String.split_on_char ';' ops) in
+  String.concat " | " outs
+
+let run_vmsrv now users ops =
+  let now = n_of_int (int_of_string now) in
+  let keys = List.map cmdkey_of_uuid (String.split_on_char ',' users) in
+  let st = ref SInit and buf = ref [] and enc = ref None and dead = ref false in
+  let outs = List.filter_map (fun op ->
+    if op = "" then None else if !dead then Some "SKIP" else
+    let c = op.[0] and data = unhex (String.sub op 1 (String.length op - 1)) in
+    match c with
+    | 'E' | 'e' ->
+      (match !st with
+       | SInit -> dead := true; Some "ERR Other"
+       | SReady (h, s, _) ->
+         (match server_vencode prims h s !enc data [] with
+          | Ok (b', out) -> enc := Some b'; Some (if c = 'E' then "OK " ^ hx out else "OK")
+          | Err e -> dead := true; Some ("ERR " ^ string_of_err e) | Panic -> dead := true; Some "PANIC"))
+    | _ ->
+      let fdec s src = match server_vdecode prims now keys s src with Ok ((s', r), it) -> Ok ((s', r), it) | Err e -> Err e | Panic -> Panic in
+      let (((s', r), items), fs) = feed fdec !st !buf data in
+      let its = String.concat "," (List.map show_inbound items) in
+      (match fs with
+       | Waiting -> st := s'; buf := r; Some (Printf.sprintf "WAIT [%s] rest=%d" its (List.length r))
+       | _ -> dead := true; Some (Printf.sprintf "%s [%s]" (fstatus_str fs) its))) (String.split_on_char ';' ops) in
+  String.concat " | " outs
+
+let run_vmcli uuid opt sec cmd addr sess ops =
+  let _ = uuid in
+  let h = { rh_opt = n_of_int (int_of_string opt land 31); rh_sec = n_of_int (int_of_string sec);
+            rh_cmd = (if cmd = "1" then CmdTcp else CmdUdp); rh_addr = parse_addr addr } in
+  let s = vsess_of_hex sess in
+  let dec = ref None and buf = ref [] and dead = ref false in
+  let outs = List.filter_map (fun op ->
+    if op = "" then None else if !dead then Some "SKIP" else
+    let c = op.[0] and data = unhex (String.sub op 1 (String.length op - 1)) in
+    match c with
+    | 'e' | 'w' -> Some "OK"     (* request bytes depend on the implementation's RNG: checked by decoding them (vmsrv) *)
+    | _ ->
+      let fdec d src = match client_vdecode prims h s d src with Ok ((d', r), it) -> Ok ((d', r), it) | Err e -> Err e | Panic -> Panic in
+      let (((d', r), items), fs) = feed fdec !dec !buf data in
+      let its = String.concat "," (List.map hx items) in
+      (match fs with
+       | Waiting -> dec := d'; buf := r; Some (Printf.sprintf "WAIT [%s] rest=%d" its (List.length r))
+       | _ -> dead := true; Some (Printf.sprintf "%s [%s]" (fstatus_str fs) its))) (String.split_on_char ';' ops) in
+  String.concat " | " outs
+
 let run_case (fields : string list) : string =
   match fields with
+  | "vmbody" :: opt :: sec :: role :: sess :: ops :: _ -> run_vmbody opt sec role sess ops
+  | "vmsrv" :: now :: users :: ops :: _ -> run_vmsrv now users ops
+  | "vmcli" :: uuid :: opt :: sec :: cmd :: addr :: sess :: _now :: ops :: _ -> run_vmcli uuid opt sec cmd addr sess ops
   | "trojsrv" :: pw :: ops :: _ ->
     let key = trojan_key prims (unhex pw) in
     run_ops (fun st src -> match trojan_server_decode key st src with
